@@ -254,6 +254,11 @@ def _connect(obj, r):
             nb = obj.bonds[-1]
             nb.label, nb.btype, nb.stereo, nb.f_order = b["label"], BondType(b["btype"]), BondStereo(b["stereo"]), b["f_order"]
             nb.attrib = dec_attr(b["attrib"])
+    # the atoms' annotations are what the recipe says AFTER the bonds exist (an annotation assigned to a finished structure)
+    from molli.chem import AtomType, AtomStereo, AtomGeom
+    for a_, ra in zip(obj.atoms, r["atoms"]):
+        a_.atype, a_.stereo, a_.geom = AtomType(ra["atype"]), AtomStereo(ra["stereo"]), AtomGeom(ra["geom"])
+        a_.formal_charge, a_.formal_spin, a_.isotope, a_.label = ra["fc"], ra["fs"], ra["iso"], ra["label"]
 
 
 def build_molecule(r, cls=None):
